@@ -50,40 +50,9 @@ def check(ctx):
     else:
         ctx.unknown("R2-channel-swap", GETATTR, "cells without normal form: " + ", ".join(k for k, v in g.items() if v is None), where)
     # ---- kernel level: density alone == density in a pair; swap; coherence 1 for a single segment
+    from ..kernels import check_pair_identities
     KE = KernelEval(ctx.repo)
-    K = "starts.shape0"
-    for backend in BACKENDS:
-        for fam in FAMILIES:
-            key = kernel_key(fam, "csd", backend); akey = kernel_key(fam, "auto", backend)
-            kw = ctx.repo.where(key, ctx.repo.get(key))
-            ctx.analysed(key, akey)
-            pair = KE.outputs_at(fam, "csd", backend, 2)
-            swp = KE.outputs_at(fam, "csd", backend, 2, ("x2", "x1"))
-            a1 = KE.outputs_at(fam, "auto", backend, 2, ("x1", "x2"))
-            a2 = KE.outputs_at(fam, "auto", backend, 2, ("x2", "x1"))
-            bad = next((z for z in (pair, swp, a1, a2) if is_opaque(z)), None)
-            if bad is not None:
-                ctx.ob("R5-kernel-identities", key, VIOLATED if isinstance(bad, Mismatch) else UNKNOWN, bad.why, kw); continue
-
-            def kl(name, lhs, rhs, detail):
-                st, why = compare(lhs, rhs, prepare=kprep, seed=ctx.seed)
-                ctx.ob(f"R5-kernel-identities[{name}]", key, st, detail + (f" ({why})" if why else ""), kw, lhs=lhs if st != HOLDS else None, rhs=rhs if st != HOLDS else None)
-            kl("alone=pair:x", pair[0], a1[0], "mean |X|^2 of channel 1 in a pair vs analysed alone")
-            kl("alone=pair:y", pair[1], a2[0], "mean |Y|^2 of channel 2 in a pair vs analysed alone")
-            kl("swap:xx", swp[0], pair[1], "swapping the channels exchanges the auto statistics")
-            kl("swap:yy", swp[1], pair[0], "swapping the channels exchanges the auto statistics")
-            kl("swap:re", swp[2], pair[2], "Re<XY*> is symmetric under channel swap")
-            kl("swap:im", swp[3], -pair[3], "Im<XY*> changes sign under channel swap")
-            kl("swap:M2", swp[4], pair[4], "scatter is symmetric under channel swap")
-            one = KE.outputs_at(fam, "csd", backend, 1)
-            if is_opaque(one):
-                ctx.ob("R5-kernel-identities[coh=1]", key, UNKNOWN, one.why, kw); continue
-            sub = {K: X.const(1)}
-            try:
-                o = [z.subst(sub) for z in one]
-                kl("coh=1", o[2] * o[2] + o[3] * o[3], o[0] * o[1], "single segment: |XY|^2 = XX*YY (L3), i.e. coherence 1")
-            except Unknown as ex:
-                ctx.ob("R5-kernel-identities[coh=1]", key, UNKNOWN, str(ex), kw)
+    check_pair_identities(ctx, KE)
     # a pair's channel c is the record analysed alone: layout routing of the two-channel input (2xN, Nx2, 2x2, list)
     from ..inputs import check_record
     check_record(ctx, rule_s=None, rule_r="R6-channel-routing")
